@@ -169,6 +169,54 @@ func ruleMoveNonNil(c *Ctx, m *heapModel) {
 func ruleEmptyAgreesLen(c *Ctx, pkg, typ string) {
 	c.rule("R-EMPTY-LEN", 0, "IsEmpty compares with zero the very quantity Len returns")
 	ln, ie := c.P.Func(pkg, typ, "Len"), c.P.Func(pkg, typ, "IsEmpty")
+	// polarity: whatever is tested, the answer is true for "nothing" and false for "something": count == 0 (not
+	// != 0), receiver == nil (not != nil)
+	if ie != nil && len(ie.Params) > 0 {
+		k := 0
+		allInstrs(ie, func(in ssa.Instruction) {
+			r2, ok := in.(*ssa.Return)
+			if !ok || len(r2.Results) != 1 {
+				return
+			}
+			bo, ok := r2.Results[0].(*ssa.BinOp)
+			if !ok {
+				return
+			}
+			x, y, op := bo.X, bo.Y, bo.Op
+			if _, isC := x.(*ssa.Const); isC {
+				x, y, op = y, x, flipOp(op)
+			}
+			verdict, known := false, false
+			if isNilConst(y) {
+				verdict, known = op == token.EQL, op == token.EQL || op == token.NEQ
+			} else if kk, isK := constInt(y); isK {
+				at := func(v int64) bool {
+					switch op {
+					case token.EQL:
+						return v == kk
+					case token.NEQ:
+						return v != kk
+					case token.LSS:
+						return v < kk
+					case token.LEQ:
+						return v <= kk
+					case token.GTR:
+						return v > kk
+					case token.GEQ:
+						return v >= kk
+					}
+					return false
+				}
+				verdict, known = at(0) && !at(1) && !at(2), true
+			}
+			if !known {
+				return
+			}
+			k++
+			c.sawFn(fnName(ie))
+			c.judge(verdict, "R-EMPTY-LEN", fmt.Sprintf("%s:polarity #%d", fnName(ie), k), bo.Pos(), "true for nothing, false for something", fmt.Sprintf("IsEmpty returns %s %s %s: it answers true for a container that holds something (or false for one that holds nothing)", ksym(x), op, ksym(y)))
+		})
+	}
 	if ln == nil || ie == nil || len(ln.Blocks) != 1 || len(ln.Params) == 0 || len(ie.Params) == 0 {
 		return
 	}
@@ -1177,6 +1225,52 @@ func ruleNilWriteback(c *Ctx) {
 			}
 			c.sawFn(fnName(fn))
 			c.judge(stored, "R-NIL-LAZY", fnName(fn)+":fresh map stored back", in.Pos(), "*s = the map allocated for a nil receiver", "a map is allocated because the receiver's map was nil, but it is never stored back through the receiver: the elements end up in a map only the return value refers to, and the caller's set stays nil")
+		})
+	}
+}
+
+// ruleNilBranchStores (part of R-NIL-LAZY): a pointer-receiver method of Set that asks whether the receiver's map is
+// nil does so in order to give it one: on the nil edge every path to a return stores through the receiver.  (A nil
+// branch that stores nothing hands back the nil map and the elements are lost.)
+func ruleNilBranchStores(c *Ctx) {
+	for _, fn := range c.P.Methods("mapset", "Set") {
+		if len(fn.Params) == 0 {
+			continue
+		}
+		if _, isPtr := fn.Params[0].Type().(*types.Pointer); !isPtr {
+			continue
+		}
+		recv := ssa.Value(fn.Params[0])
+		fn := fn
+		n := 0
+		allInstrs(fn, func(in ssa.Instruction) {
+			iff, ok := in.(*ssa.If)
+			if !ok {
+				return
+			}
+			for i := 0; i < 2; i++ {
+				cm, ok := edgeCmp(iff, i)
+				if !ok || cm.Op != token.EQL {
+					continue
+				}
+				isNilTest := false
+				for _, pr := range [][2]ssa.Value{{cm.X, cm.Y}, {cm.Y, cm.X}} {
+					if a, ok := loadAddr(pr[0]); ok && a == recv && isNilConst(pr[1]) {
+						isNilTest = true
+					}
+				}
+				if !isNilTest || len(iff.Block().Succs[i].Instrs) == 0 {
+					continue
+				}
+				n++
+				start := iff.Block().Succs[i].Instrs[0]
+				reach, wit := reachesWithout(c.P, start, true, func(j ssa.Instruction) bool { _, r := j.(*ssa.Return); return r }, func(j ssa.Instruction) bool {
+					st, ok := j.(*ssa.Store)
+					return ok && st.Addr == recv
+				})
+				c.sawFn(fnName(fn))
+				c.judge(!reach, "R-NIL-LAZY", fmt.Sprintf("%s:nil receiver gets a map #%d", fnName(fn), n), iff.Cond.Pos(), "every path from the nil test to a return stores through the receiver", "the receiver's map is found nil and the method can return without storing a map through the receiver ("+wit+"): what was to be added is lost and the caller's set stays nil")
+			}
 		})
 	}
 }
